@@ -58,11 +58,13 @@ V == View(m.S)
 \* get-modify-set are not atomic); they count only when reproduced on the real code
 C34_NoDuplicate_AsStated      == NoDuplicateStrict(V)
 C34_AnsweredRecorded_AsStated == AnsweredRecordedStrict(m, sc, V)
-\* the property outside the known race shapes (known_findings.json): must hold
+C34_WithinMax_AsStated        == WithinMax(V, sc)
+\* the property outside the known race shapes (known_findings.json F-C34-a, -b, -c): must hold
 C34_NoDuplicate      == NoDuplicate(m, V)
 C34_WithinMax        == WithinMaxKnown(m, sc, V)
-C34_WithinMax_AsStated == WithinMax(V, sc)
 C34_AnsweredRecorded == AnsweredRecorded(m, sc, V)
-\* a sealed evidence never changes again ... except through an aliased backing array
-SealedFrozen == [][m.S.sealed => View(m.S').proofs = View(m.S).proofs]_vars
+\* "a sealed evidence never changes again": not an invariant of the code -- a relay that loaded
+\* before the sealing overwrites a slot of the sealed value through the shared backing array
+\* (scenario <<1, 2, 3>>, max 4, pre 3; part of F-C34-b).  Kept as a probe, in no cfg.
+SealedFrozen_Probe == [][m.S.sealed /\ m.S'.sealed => View(m.S').proofs = View(m.S).proofs]_vars
 =============================================================================
